@@ -156,7 +156,7 @@ class FormatString:
                 raise OverflowError(n)
             self._next_arg_index += 1
             self._argument_map[n] += [field]
-        elif name.isdigit():
+        elif name.isdecimal():
             n = int(name)
             if n > SSIZE_MAX:
                 raise OverflowError(n)
